@@ -390,6 +390,10 @@ def score_mqtt(chk: Check, pattern, forced, res, consts_model) -> None:
     cells = out[3:].split(",")
     nd = 0
     for (t, i), cell in zip(res["offers"], cells):
+        cell, _, margin = cell.partition(":")
+        if margin and not forced[i] and abs(int(margin)) < W * 1000:        # within 1e-6 token of the drop threshold:
+            chk.count("mqtt.knife_edge_stop")                               # float and exact arithmetic may differ here
+            break
         if cell == "D":
             nd += 1
             if i in pub_t:
@@ -464,6 +468,13 @@ def run(chk: Check) -> None:
         run_port(chk, D, gen_pattern(rnd, thorough), rnd, consts)
     for k in range(n_mqtt):
         pat = gen_pattern(rnd, thorough)
+        if k % 6 == 0:
+            # drain the one-off double allowance, then keep offering while accepted writes sleep off their debt
+            t, step = rnd.randrange(0, 10**6), rnd.choice((20_001, 50_003, 70_000, 200_017, 700_001, rnd.randrange(15_000, 900_000)))
+            pat = [(t, 1)] * rnd.choice((150, 200, 260))
+            for _ in range(rnd.randint(300, 1500 if thorough else 700)):
+                t += step
+                pat.append((t, rnd.choice((1, 24, 48))))
         p_forced = rnd.choice((0.0, 0.0, 0.1, 0.5))
         forced = [rnd.random() < p_forced for _ in pat]
         run_mqtt(chk, pat, forced, rnd, consts)
